@@ -374,7 +374,159 @@ def run(ctx):
                     if l and not l.startswith("#"):
                         cases.append((l, "corpus"))
         cases += gen_cases(ctx, rng, ctx.n(700, 20000), 9, 3)
+        cases += gen_kcases(rng, ctx.n(60, 3000))
+    kl = [c[0] for c in cases if c[0].startswith("K ")]
+    if kl:
+        run_kcases(ctx, kl, exes, drv, flavours)
+    cases = [c for c in cases if not c[0].startswith("K ")]
+    if not cases:
+        return None
     return run_cases(ctx, cases, exes, drv, flavours)
+
+
+def gen_kcases(rng, n):
+    """jpeg_crop_scanline called twice (K lines): plain mode (both calls before the first read) and buffered-image mode
+    (one call before each of two output passes); second requests aimed at the first region's width / edges"""
+    out = []
+    for _ in range(n):
+        samp = rng.choice(["111111", "211111", "221111", "11", "121111", "411111"])
+        nc = len(samp) // 2
+        hmax = max(int(c) for c in samp[0::2])
+        W = rng.range(70, 220)
+        H = rng.range(8, 40)
+        mode = rng.choice([0, 1, 2])
+        prec = 12 if rng.chance(1, 4) else 8
+        head = "%d %d %s %d %d %d %d %d" % (W, H, samp, mode, 0, prec, rng.choice([0, 0, 3]), rng.range(1, 1 << 20))
+        M = rng.choice([8, 8, 8, 4, 12, 16, 6])
+        ow = ceil_div(W * M, 8)
+        align = M * (1 if nc == 1 else hmax)
+        if ow < 4 * align + 8:
+            continue
+        w1 = rng.range(2 * align + 3, ow - align)          # never a <= 2 column region (upsampler re-selection)
+        x1 = rng.range(0, ow - w1)
+        xa = x1 // align * align
+        wa = w1 + x1 - xa
+        kind = rng.range(0, 6)
+        if kind == 0:      # same width as the first region, another offset
+            w2 = wa; x2 = rng.range(0, ow - w2)
+        elif kind == 1:    # inside the first region's width
+            w2 = rng.range(1, wa - 1); x2 = rng.range(0, wa - w2)
+        elif kind == 2:    # right of the first region
+            x2 = rng.range(min(xa + 1, ow - 1), ow - 1); w2 = rng.range(1, ow - x2)
+        elif kind == 3:    # back to the full width
+            x2, w2 = 0, ow
+        elif kind == 4:    # invalid for the image
+            x2 = rng.range(0, ow); w2 = ow - x2 + rng.range(1, 9)
+        else:
+            w2 = rng.range(1, ow); x2 = rng.range(0, ow - w2)
+        out.append(("K %s | %d 0 %d 0 %d | %d %d %d %d %d" % (head, M, rng.choice([0, 0, 1]), rng.choice([0, 1, 3]),
+                                                             rng.range(0, 1), x1, w1, x2, w2), "recrop"))
+    return out
+
+
+def run_kcases(ctx, klines, exes, drv, flavours):
+    mlines = None
+    if drv:
+        rc, out, err = sh2([drv], input=("\n".join(klines) + "\n").encode(), timeout=600)
+        mlines = out.decode().split("\n")
+        if rc != 0 or len(mlines) < len(klines):
+            ctx.broken_tie("model-driver", "extracted model failed on K lines: rc=%d %s" % (rc, err[-200:]))
+            mlines = None
+    outs = {}
+    for fl in flavours:
+        o, crashes = run_harness(exes[fl], klines)
+        outs[fl] = o
+        for k, rc, err in crashes:
+            ctx.violation("implementation crashed/hung on a repeated jpeg_crop_scanline (%s build, rc=%d)" % (fl, rc),
+                          {"case": klines[k], "flavour": fl, "stderr": err[-1500:]}, signature="crash:recrop")
+    for i, line in enumerate(klines):
+        impl = outs[flavours[0]][i]
+        if impl is None or impl.startswith("<crash"):
+            continue
+        if impl.startswith("enc-err") or impl.startswith("full-err"):
+            ctx.count("encoder-rejected", 1, None)
+            continue
+        for fl in flavours[1:]:
+            if outs[fl][i] is not None and not outs[fl][i].startswith("<crash") and outs[fl][i] != impl:
+                ctx.violation("builds disagree (%s vs %s)" % (flavours[0], fl), {"case": line, flavours[0]: impl[:800], fl: outs[fl][i][:800]},
+                              signature="builds-disagree:recrop")
+        f = [x.strip() for x in line[2:].split("|")]
+        hd = f[0].split()
+        Wimg, samp = int(hd[0]), hd[2]
+        M = int(f[1].split()[0])
+        buf, x1, w1, x2, w2 = [int(x) for x in f[2].split()]
+        nc = len(samp) // 2
+        align = M * (1 if nc == 1 else max(int(c) for c in samp[0::2]))
+        ow = ceil_div(Wimg * M, 8)
+
+        def region(x, w):      # documented rule, relative to the image row
+            if w == 0 or x + w > ow:
+                return None
+            if w == ow:
+                return (0, ow)
+            xa = x // align * align
+            return (xa, w + x - xa)
+        seg = [t.strip() for t in impl.split("|")]
+        mo = re.match(r"k ow=(\d+) oh=(\d+)", seg[0])
+        rep = {"case": line, "impl": impl, "model": (mlines[i] if mlines else "")}
+        if not mo or int(mo.group(1)) != ow or len(seg) < 2:
+            ctx.violation("unexpected harness output on a K line", rep, signature="recrop:output")
+            continue
+
+        def parse(t):
+            m = re.match(r"c\d (\d+) (\d+) (\d+)(?: at=(-?\d+) rep=(\d))?(?: first=(\d))?", t)
+            return None if not m else [None if g is None else int(g) for g in m.groups()]
+        e1 = region(x1, w1)
+        c1 = parse(seg[1])
+        if e1 is None:
+            if c1 is not None:
+                ctx.violation("invalid crop region (%d,%d) for width %d was accepted" % (x1, w1, ow), rep, signature="crop-accepted")
+            ctx.count("recrop-first-invalid", 1, None)
+            continue
+        rx1 = (0, ow) if w1 == ow else e1
+        if c1 is None or (c1[0], c1[1]) != ((x1, w1) if w1 == ow else e1) or c1[2] != rx1[1] or (buf and (c1[3] != rx1[0] or c1[4] != 1)):
+            ctx.violation("first jpeg_crop_scanline(%d,%d): %s, expected region %s" % (x1, w1, seg[1], e1), rep, signature="recrop:first-call")
+            continue
+        e2 = region(x2, w2)
+        c2 = parse(seg[2]) if len(seg) > 2 else None
+        err2 = len(seg) > 2 and " err " in " " + seg[2] + " "
+        if e2 is None:
+            conform = err2
+        else:
+            rep2 = (x2, w2) if w2 == ow else e2
+            conform = (c2 is not None and (c2[0], c2[1]) == rep2 and c2[2] == e2[1] and c2[3] == e2[0] and
+                       (c2[4] == 1 or w2 == ow))
+        # the faithful model (second request tested against the cropped width) and the documented rule, from Coq
+        mm = re.match(r"k ow=(\d+) oh=(\d+) doc=(\S+) model=(\S+)", mlines[i]) if mlines else None
+        if mlines and (not mm or int(mm.group(1)) != ow):
+            ctx.broken_tie("model-recrop", "model line for a K case: " + (mlines[i] or "")[:200])
+        mdoc = mm.group(3) if mm else None
+        mfm = mm.group(4) if mm else None
+        if mdoc is not None and mdoc != ("err" if e2 is None else "%d,%d" % e2):
+            ctx.broken_tie("model-recrop-doc", "recrop_documented = %s, the documented rule gives %s on %s" % (mdoc, e2, line))
+        if conform:
+            if mfm is not None and (mfm == "err") != (e2 is None) or (mfm or "").startswith("ignored") and e2 != rx1:
+                ctx.broken_tie("model-stale:recrop", "the faithful model predicts %s, the library follows the documented rule on %s" % (mfm, line))
+            ctx.count("recrop-" + ("buf" if buf else "recall") + ("-invalid" if e2 is None else "-ok"), 1, ("recrop", buf, e2 is None))
+            continue
+        stale = False
+        if mfm == "err" and err2:
+            stale = True
+            what = "a valid region (%d,%d) of the %d-column row is rejected (JERR_WIDTH_OVERFLOW) after a first crop to %s" % (x2, w2, ow, e1)
+        elif mfm and mfm.startswith("ignored") and c2 is not None:
+            _, xa, wa = mfm.split(",")
+            if (c2[0], c2[1]) == (x2, w2) and c2[2] == int(wa) and c2[3] == int(xa) and c2[5] == 1:
+                stale = True
+                what = ("a second jpeg_crop_scanline(%d,%d) after a first crop to %s is ignored silently: the caller's values come back "
+                        "unchanged, columns %d..%d are delivered instead of %d..%d" % (x2, w2, e1, int(xa), int(xa) + int(wa) - 1, e2[0], e2[0] + e2[1] - 1))
+        if stale:
+            ctx.violation("repeated jpeg_crop_scanline (%s) tests the request against the already cropped output_width: %s" % (
+                "buffered-image mode, next output pass" if buf else "second call before the first read, as libjpeg.txt allows", what),
+                rep, signature="recrop-stale-width:" + ("bufimage" if buf else "recall"))
+            ctx.count("recrop-stale", 1, ("recrop-stale", buf, mfm.split(",")[0]))
+        else:
+            ctx.violation("repeated jpeg_crop_scanline(%d,%d) after (%d,%d): %s -- neither the documented region %s nor the faithful model's prediction %s"
+                          % (x2, w2, x1, w1, " | ".join(seg[1:]), e2, mfm), rep, signature="recrop:lib")
 
 
 def expand_passes(line):
